@@ -19,7 +19,7 @@ STATIC = ["Base/ZV3.vo", "Base/CaseUtil.vo", "Geometry/Extend.vo", "Geometry/Ext
           "Geometry/CellListProofs.vo", "Geometry/Matches.vo", "Geometry/MatchesProofs.vo", "Geometry/DispTensor.vo",
           "Geometry/GeoAgree.vo"]
 CORPUS = os.path.join(C.VERIF, "corpus", "C16")
-KEYS = ("kind", "cell", "pbc", "pos", "nums", "ext", "cutoff", "probes", "tol", "probe_nums", "history")
+KEYS = ("kind", "cell", "pbc", "pos", "nums", "ext", "cutoff", "probes", "tol", "probe_nums", "history", "twin")
 
 
 def norm_case(c):
@@ -546,6 +546,7 @@ def run(ctx):
             # process-history stream (no PRNG draw): one case in three is measured after the same structure was extended /
             # binned / searched / matched with other extension, cutoff and tolerance values in the same process
             c.setdefault("history", c["id"] % 3 == 0)
+            c.setdefault("twin", c["id"] % 2 == 1)      # a twin structure (same edge lengths, orthogonal cell) goes through the library first
         tb = time.time()
         impl, modes = run_impl(cases)
         state["t_impl"] += time.time() - tb
